@@ -17,8 +17,10 @@ def build(tier):
     K = 12 if q else 20
     for case in L.CASES:
         name = f"fault_{case}"
-        pre = [f"1 <= k <= {K}"] + (["not repeat"] if q else [])
-        src += hgen.cond(name, "k: int, repeat: bool, with_data: bool", pre, f"L.step({case!r}, k, repeat, with_data)", sig="hb.KEY")
+        NK = len(L.hb.SpyPathIO.FAIL_KINDS)
+        # quick: the kind of exception is tied to the fault index (every kind is met at several indices); thorough: the (index, kind) plane
+        pre = [f"1 <= k <= {K}", f"0 <= ek < {NK}"] + (["not repeat", f"ek == k % {NK}"] if q else ["ek == 0 or not repeat"])
+        src += hgen.cond(name, "k: int, repeat: bool, with_data: bool, ek: int", pre, f"L.step({case!r}, k, repeat, with_data, ek)", sig="hb.KEY")
         conds += [Cond(name, "prop", T, group=case), Cond(name + "__twin", "twin", 60, group=case)]
     for kind in ("download", "upload"):
         name = f"e2e_{kind}"
@@ -32,7 +34,7 @@ def build(tier):
                            U(S.retr), U(S.list), U(S.mlsd), pathio.AsyncPathIOContext.__aexit__],
         bounds={
             "commands": f"{list(L.CASES)} (stor_rest / retr_rest: preceded by a real REST 2), with and without a data connection present",
-            "fault": f"the k-th storage-backend call made by the command (exists, is_dir, is_file, stat, open, seek, read, write, close, list iteration, mkdir, rmdir, unlink, rename) raises OSError, k symbolic in 1..{K}"
+            "fault": f"the k-th storage-backend call made by the command (exists, is_dir, is_file, stat, open, seek, read, write, close, list iteration, mkdir, rmdir, unlink, rename) raises, k symbolic in 1..{K}; what it raises: OSError(EIO), TimeoutError (= OSError(ETIMEDOUT) = asyncio.TimeoutError), ValueError, FileNotFoundError, RuntimeError" + (" (quick: kind = k mod 5)" if q else " (every pair)")
                      + ("" if q else "; optionally every later call fails as well"),
             "end to end": "real Client over SimNet, download and upload with the k-th backend call failing, a second session open in parallel",
         },
